@@ -101,12 +101,14 @@ Definition x86_masked_get : ctx_table :=
      ct_registers := ct_registers ctx_x86;
      ct_get := ([n_esp], AAnd (ALoc l_x86_esp) (ANot (ALit 3) 32)) :: ct_get ctx_x86;
      ct_set := ct_set ctx_x86; ct_set_val := ct_set_val ctx_x86;
-     ct_memo := ct_memo ctx_x86; ct_memo_cmp := ct_memo_cmp ctx_x86; ct_groups := ct_groups ctx_x86;
+     ct_memo := ct_memo ctx_x86; ct_memo_tbl := ct_memo_tbl ctx_x86; ct_memo_cmp := ct_memo_cmp ctx_x86; ct_groups := ct_groups ctx_x86;
      ct_valid_all := ct_valid_all ctx_x86; ct_valid_default := ct_valid_default ctx_x86; ct_get_cond := ct_get_cond ctx_x86;
      ct_fmt_prefix := ct_fmt_prefix ctx_x86; ct_fmt_zero := ct_fmt_zero ctx_x86; ct_fmt_mul := ct_fmt_mul ctx_x86;
      ct_sp_name := ct_sp_name ctx_x86; ct_ip_name := ct_ip_name ctx_x86;
      ct_sp_acc := ct_sp_acc ctx_x86; ct_ip_acc := ct_ip_acc ctx_x86;
      ct_md_get := ct_md_get ctx_x86; ct_md_valid := ct_md_valid ctx_x86; ct_md_filter := ct_md_filter ctx_x86;
+     ct_iter_all := ct_iter_all ctx_x86; ct_iter_some := ct_iter_some ctx_x86; ct_next_slice := ct_next_slice ctx_x86; ct_next_set := ct_next_set ctx_x86;
+     ct_next_val := ct_next_val ctx_x86; ct_md_regs_val := ct_md_regs_val ctx_x86; ct_md_size := ct_md_size ctx_x86;
      ct_fields := ct_fields ctx_x86; ct_gpr := ct_gpr ctx_x86 |}.
 Theorem c18_masked_read_rejected :
   let rf0 : regfile := fun _ _ => 0 in
@@ -124,13 +126,15 @@ Definition x86_loose_validity : ctx_table :=
   {| ct_name := ct_name ctx_x86; ct_variant := ct_variant ctx_x86; ct_width := ct_width ctx_x86;
      ct_registers := ct_registers ctx_x86; ct_get := ct_get ctx_x86;
      ct_set := ct_set ctx_x86; ct_set_val := ct_set_val ctx_x86;
-     ct_memo := ct_memo ctx_x86; ct_memo_cmp := ct_memo_cmp ctx_x86; ct_groups := ct_groups ctx_x86;
+     ct_memo := ct_memo ctx_x86; ct_memo_tbl := ct_memo_tbl ctx_x86; ct_memo_cmp := ct_memo_cmp ctx_x86; ct_groups := ct_groups ctx_x86;
      ct_valid_all := ct_valid_all ctx_x86; ct_valid_default := BOr (BVar v_contains) (BLit true);
      ct_get_cond := ct_get_cond ctx_x86;
      ct_fmt_prefix := ct_fmt_prefix ctx_x86; ct_fmt_zero := ct_fmt_zero ctx_x86; ct_fmt_mul := ct_fmt_mul ctx_x86;
      ct_sp_name := ct_sp_name ctx_x86; ct_ip_name := ct_ip_name ctx_x86;
      ct_sp_acc := ct_sp_acc ctx_x86; ct_ip_acc := ct_ip_acc ctx_x86;
      ct_md_get := ct_md_get ctx_x86; ct_md_valid := ct_md_valid ctx_x86; ct_md_filter := ct_md_filter ctx_x86;
+     ct_iter_all := ct_iter_all ctx_x86; ct_iter_some := ct_iter_some ctx_x86; ct_next_slice := ct_next_slice ctx_x86; ct_next_set := ct_next_set ctx_x86;
+     ct_next_val := ct_next_val ctx_x86; ct_md_regs_val := ct_md_regs_val ctx_x86; ct_md_size := ct_md_size ctx_x86;
      ct_fields := ct_fields ctx_x86; ct_gpr := ct_gpr ctx_x86 |}.
 Theorem c18_loose_validity_rejected :
   is_valid x86_loose_validity n_esp (VSome []) = true /\ is_valid ctx_x86 n_esp (VSome []) = false /\
@@ -148,12 +152,14 @@ Definition n_rip : name := [114; 105; 112].
 Definition amd64_nocase : ctx_table :=
   {| ct_name := ct_name ctx_amd64; ct_variant := ct_variant ctx_amd64; ct_width := ct_width ctx_amd64;
      ct_registers := ct_registers ctx_amd64; ct_get := ct_get ctx_amd64; ct_set := ct_set ctx_amd64; ct_set_val := ct_set_val ctx_amd64;
-     ct_memo := ct_memo ctx_amd64; ct_memo_cmp := 1; ct_groups := ct_groups ctx_amd64;
+     ct_memo := ct_memo ctx_amd64; ct_memo_tbl := ct_memo_tbl ctx_amd64; ct_memo_cmp := 1; ct_groups := ct_groups ctx_amd64;
      ct_valid_all := ct_valid_all ctx_amd64; ct_valid_default := ct_valid_default ctx_amd64; ct_get_cond := ct_get_cond ctx_amd64;
      ct_fmt_prefix := ct_fmt_prefix ctx_amd64; ct_fmt_zero := ct_fmt_zero ctx_amd64; ct_fmt_mul := ct_fmt_mul ctx_amd64;
      ct_sp_name := ct_sp_name ctx_amd64; ct_ip_name := ct_ip_name ctx_amd64;
      ct_sp_acc := ct_sp_acc ctx_amd64; ct_ip_acc := ct_ip_acc ctx_amd64;
      ct_md_get := ct_md_get ctx_amd64; ct_md_valid := ct_md_valid ctx_amd64; ct_md_filter := ct_md_filter ctx_amd64;
+     ct_iter_all := ct_iter_all ctx_amd64; ct_iter_some := ct_iter_some ctx_amd64; ct_next_slice := ct_next_slice ctx_amd64; ct_next_set := ct_next_set ctx_amd64;
+     ct_next_val := ct_next_val ctx_amd64; ct_md_regs_val := ct_md_regs_val ctx_amd64; ct_md_size := ct_md_size ctx_amd64;
      ct_fields := ct_fields ctx_amd64; ct_gpr := ct_gpr ctx_amd64 |}.
 Theorem c18_case_insensitive_memoize_rejected :
   memoize amd64_nocase n_RIP = Some n_rip /\
@@ -217,7 +223,7 @@ Definition l_arm_cpsr : loc := mkloc [99; 112; 115; 114] (-1) 32 (-1).
 Definition arm_thumb_masked : ctx_table :=
   {| ct_name := ct_name ctx_arm; ct_variant := ct_variant ctx_arm; ct_width := ct_width ctx_arm;
      ct_registers := ct_registers ctx_arm; ct_get := ct_get ctx_arm; ct_set := ct_set ctx_arm; ct_set_val := ct_set_val ctx_arm;
-     ct_memo := ct_memo ctx_arm; ct_memo_cmp := ct_memo_cmp ctx_arm; ct_groups := ct_groups ctx_arm;
+     ct_memo := ct_memo ctx_arm; ct_memo_tbl := ct_memo_tbl ctx_arm; ct_memo_cmp := ct_memo_cmp ctx_arm; ct_groups := ct_groups ctx_arm;
      ct_valid_all := ct_valid_all ctx_arm; ct_valid_default := ct_valid_default ctx_arm; ct_get_cond := ct_get_cond ctx_arm;
      ct_fmt_prefix := ct_fmt_prefix ctx_arm; ct_fmt_zero := ct_fmt_zero ctx_arm; ct_fmt_mul := ct_fmt_mul ctx_arm;
      ct_sp_name := ct_sp_name ctx_arm; ct_ip_name := ct_ip_name ctx_arm;
@@ -226,6 +232,8 @@ Definition arm_thumb_masked : ctx_table :=
                     (AIf (BNe (AAnd (ALoc l_arm_cpsr) (ALit 32)) (ALit 0))
                          (AAnd (AVar n_pc) (ANot (ALit 1) 64)) (AVar n_pc));
      ct_md_get := ct_md_get ctx_arm; ct_md_valid := ct_md_valid ctx_arm; ct_md_filter := ct_md_filter ctx_arm;
+     ct_iter_all := ct_iter_all ctx_arm; ct_iter_some := ct_iter_some ctx_arm; ct_next_slice := ct_next_slice ctx_arm; ct_next_set := ct_next_set ctx_arm;
+     ct_next_val := ct_next_val ctx_arm; ct_md_regs_val := ct_md_regs_val ctx_arm; ct_md_size := ct_md_size ctx_arm;
      ct_fields := ct_fields ctx_arm; ct_gpr := ct_gpr ctx_arm |}.
 Theorem c18_masked_accessor_rejected :
   let c := arm_thumb_masked in
@@ -298,24 +306,80 @@ Theorem c18_md_roundtrip : forall c, In c all_contexts -> forall n, In n (accept
 Proof. intros c Hc. exact (md_roundtrip c (all_facts c Hc)). Qed.
 Print Assumptions c18_md_roundtrip.
 
-(* registers() / valid_registers() as ITERATORS (CpuRegisters::next): draining the iterator reads
-   every name of the initial state in order (REGISTERS under All, the set's members under Some) and
-   never runs out of fuel; on a state of known names each step yields the head with its location's
-   value; an exhausted iterator keeps answering None *)
+(* registers() / valid_registers() as ITERATORS.  The names each arm of valid_registers iterates ([ct_iter_all],
+   [ct_iter_some]) and the step of CpuRegisters::next (how many names an arm consumes, the value it pairs with the name)
+   are regenerated from the source; for the nine tables: the initial state is REGISTERS (Slice) under All and the set's
+   members (Set) under Some; draining the iterator reads every name of the initial state in order and never runs out of
+   fuel; on a state of known names each step yields the head with its location's value; an exhausted iterator keeps
+   answering None; registers() = valid_registers(All) lists REGISTERS *)
 Theorem c18_register_iterator : forall c, In c all_contexts -> forall rf,
-  (forall v, cpu_valid_registers c rf v = mapM (named c rf) (cpu_iter_init c v)) /\
-  (forall r t, memoize c r <> None ->
-     cpu_iter_next c rf (r :: t) = Ret (Some (r, rf_get rf (loc_of c r)), t)) /\
-  cpu_iter_next c rf [] = Ret (None, []) /\
+  (forall v, cpu_iter_init c v = match v with VAll => (KSlice, ct_registers c) | VSome s => (KSet, s) end) /\
+  (forall v, cpu_valid_registers c rf v = mapM (named c rf) (snd (cpu_iter_init c v))) /\
+  (forall k r t, memoize c r <> None ->
+     cpu_iter_next c rf (k, r :: t) = Ret (Some (r, rf_get rf (loc_of c r)), (k, t))) /\
+  (forall k, cpu_iter_next c rf (k, []) = Ret (None, (k, []))) /\
   cpu_iter_collect (S (length (ct_registers c))) c rf (cpu_iter_init c VAll) =
-    Ret (listing c rf (ct_registers c)).
+    Ret (listing c rf (ct_registers c)) /\
+  cpu_registers c rf = Ret (listing c rf (ct_registers c)).
 Proof.
   intros c Hc rf. pose proof (all_facts c Hc) as F.
-  split; [intro v; exact (cpu_valid_registers_mapM c rf v)|].
-  split; [exact (cpu_iter_step c F rf)|]. split; [reflexivity|].
-  destruct (enumerations c F rf) as [_ [_ [E _]]]. exact E.
+  split; [exact (cpu_iter_init_eq c F)|].
+  split; [intro v; rewrite (cpu_valid_registers_mapM c F rf v), (cpu_iter_init_eq c F); destruct v; reflexivity|].
+  split; [exact (cpu_iter_step c F rf)|]. split; [exact (cpu_iter_next_nil c rf)|].
+  destruct (enumerations c F rf) as [_ [_ [E _]]]. split; [|exact E].
+  unfold cpu_valid_registers in E. rewrite (cpu_iter_init_eq c F) in *. exact E.
 Qed.
 Print Assumptions c18_register_iterator.
+
+(* generated = hand model: the parts of the trait's default bodies and of the MinidumpContext dispatch that are regenerated
+   from the source as data / expressions (the table default_memoize_register searches, the value MinidumpContext::registers
+   pairs with a name, the register_size arms) denote, for the nine tables, what the property needs:
+   memoize_register = the alias arm, else the name itself iff it is in REGISTERS (ALL strings);
+   MinidumpContext::registers pairs every name with exactly what the variant's get_register_always returns (same panics);
+   register_size = size_of::<Register>() = 4 or 8 = ct_width / 8 *)
+Theorem c18_generated_bodies : forall c, In c all_contexts ->
+  (forall n, memoize c n = match find_arm n (ct_memo c) with
+                           | Some m => Some m
+                           | None => if mem n (ct_registers c) then Some n else None
+                           end) /\
+  (forall rf n, md_named c rf n = named c rf n) /\
+  md_register_size c = Ret (ct_width c / 8) /\ (ct_width c / 8 = 4 \/ ct_width c / 8 = 8).
+Proof.
+  intros c Hc. pose proof (all_facts c Hc) as F.
+  split; [exact (memoize_exact c (f_cmp c F) (f_memo_tbl c F))|].
+  split; [exact (md_named_eq c F)|]. split; [exact (md_register_size_eq c F)|].
+  destruct (f_width c F) as [W|W]; rewrite W; [left | right]; reflexivity.
+Qed.
+Print Assumptions c18_generated_bodies.
+
+(* what the checker does with an enumeration that ignores the validity set (valid_registers' Some arm builds
+   `CpuRegistersInner::Slice(Self::REGISTERS.iter())`) and with an iterator that skips (`iter.nth(1)` in the Slice arm
+   of CpuRegisters::next): the X86 table with these two generated fields changed lists all ten registers under
+   Some({eip}) / every second register under All; [diagnose] reports the table *)
+Definition n_eip : name := [101; 105; 112].
+Definition x86_iter (some : names_src) (skip : Z) : ctx_table :=
+  {| ct_name := ct_name ctx_x86; ct_variant := ct_variant ctx_x86; ct_width := ct_width ctx_x86;
+     ct_registers := ct_registers ctx_x86; ct_get := ct_get ctx_x86;
+     ct_set := ct_set ctx_x86; ct_set_val := ct_set_val ctx_x86;
+     ct_memo := ct_memo ctx_x86; ct_memo_tbl := ct_memo_tbl ctx_x86; ct_memo_cmp := ct_memo_cmp ctx_x86; ct_groups := ct_groups ctx_x86;
+     ct_valid_all := ct_valid_all ctx_x86; ct_valid_default := ct_valid_default ctx_x86; ct_get_cond := ct_get_cond ctx_x86;
+     ct_fmt_prefix := ct_fmt_prefix ctx_x86; ct_fmt_zero := ct_fmt_zero ctx_x86; ct_fmt_mul := ct_fmt_mul ctx_x86;
+     ct_sp_name := ct_sp_name ctx_x86; ct_ip_name := ct_ip_name ctx_x86;
+     ct_sp_acc := ct_sp_acc ctx_x86; ct_ip_acc := ct_ip_acc ctx_x86;
+     ct_md_get := ct_md_get ctx_x86; ct_md_valid := ct_md_valid ctx_x86; ct_md_filter := ct_md_filter ctx_x86;
+     ct_iter_all := ct_iter_all ctx_x86; ct_iter_some := some; ct_next_slice := skip; ct_next_set := ct_next_set ctx_x86;
+     ct_next_val := ct_next_val ctx_x86; ct_md_regs_val := ct_md_regs_val ctx_x86; ct_md_size := ct_md_size ctx_x86;
+     ct_fields := ct_fields ctx_x86; ct_gpr := ct_gpr ctx_x86 |}.
+Theorem c18_loose_enumeration_rejected :
+  let rf : regfile := fun _ _ => 3 in
+  cpu_valid_registers ctx_x86 rf (VSome [n_eip]) = Ret [(n_eip, 3)] /\
+  option_map (@length _) (match cpu_valid_registers (x86_iter (NList (ct_registers ctx_x86)) 0) rf (VSome [n_eip]) with Ret l => Some l | _ => None end) = Some 10%nat /\
+  diagnose (x86_iter (NList (ct_registers ctx_x86)) 0) <> [] /\
+  option_map (@length _) (match cpu_registers ctx_x86 rf with Ret l => Some l | _ => None end) = Some 10%nat /\
+  option_map (@length _) (match cpu_registers (x86_iter NSet 1) rf with Ret l => Some l | _ => None end) = Some 5%nat /\
+  diagnose (x86_iter NSet 1) <> [].
+Proof. cbv zeta. repeat split; try (vm_compute; reflexivity); vm_compute; discriminate. Qed.
+Print Assumptions c18_loose_enumeration_rejected.
 
 (* format_register (the model renders in Gallina, compared byte for byte with the code's String):
    "0x" followed by lower-case hexadecimal digits that denote exactly the value the unchecked read
@@ -346,11 +410,13 @@ Proof. repeat split; vm_compute; reflexivity. Qed.
 Definition sparc_before_fix : ctx_table :=
   {| ct_name := ct_name ctx_sparc; ct_variant := ct_variant ctx_sparc; ct_width := ct_width ctx_sparc;
      ct_registers := ct_registers ctx_sparc; ct_get := ct_get ctx_sparc; ct_set := ct_set ctx_sparc; ct_set_val := ct_set_val ctx_sparc;
-     ct_memo := []; ct_memo_cmp := 0; ct_groups := [];
+     ct_memo := []; ct_memo_tbl := ct_memo_tbl ctx_sparc; ct_memo_cmp := 0; ct_groups := [];
      ct_valid_all := ct_valid_all ctx_sparc; ct_valid_default := ct_valid_default ctx_sparc; ct_get_cond := ct_get_cond ctx_sparc;
      ct_fmt_prefix := ct_fmt_prefix ctx_sparc; ct_fmt_zero := ct_fmt_zero ctx_sparc; ct_fmt_mul := ct_fmt_mul ctx_sparc;
      ct_sp_name := ct_sp_name ctx_sparc; ct_ip_name := ct_ip_name ctx_sparc;
-     ct_sp_acc := ct_sp_acc ctx_sparc; ct_ip_acc := ct_ip_acc ctx_sparc; ct_fields := ct_fields ctx_sparc;
+     ct_sp_acc := ct_sp_acc ctx_sparc; ct_ip_acc := ct_ip_acc ctx_sparc; ct_iter_all := ct_iter_all ctx_sparc; ct_iter_some := ct_iter_some ctx_sparc; ct_next_slice := ct_next_slice ctx_sparc; ct_next_set := ct_next_set ctx_sparc;
+     ct_next_val := ct_next_val ctx_sparc; ct_md_regs_val := ct_md_regs_val ctx_sparc; ct_md_size := ct_md_size ctx_sparc;
+     ct_fields := ct_fields ctx_sparc;
      ct_md_get := ct_md_get ctx_sparc; ct_md_valid := ct_md_valid ctx_sparc; ct_md_filter := ct_md_filter ctx_sparc;
      ct_gpr := ct_gpr ctx_sparc |}.
 Definition n_o6 : name := [111; 54].
@@ -421,13 +487,49 @@ Example c18_nonvacuous_accessors :
   md_get_always ctx_arm rf1 n_pc = Ret 32769 /\ md_get_register ctx_arm rf1 n_pc (VSome [n_r15]) = Ret (Some 32769) /\
   md_get_register ctx_arm rf1 n_pc (VSome [n_sp]) = Ret None /\
   format_register ctx_arm rf1 n_r15 = Ret [48; 120; 48; 48; 48; 48; 56; 48; 48; 49] /\
-  cpu_iter_next ctx_arm rf1 [n_pc; n_sp] = Ret (Some (n_pc, 32769), [n_sp]).
+  cpu_iter_next ctx_arm rf1 (KSet, [n_pc; n_sp]) = Ret (Some (n_pc, 32769), (KSet, [n_sp])).
 Proof. cbv zeta. split; [vm_compute; tauto|]. repeat split; vm_compute; reflexivity. Qed.
 (* an unknown name: absent, refused, and get_register_always would panic *)
 Example c18_nonvacuous_unknown :
   memoize ctx_amd64 [102; 111; 111] = None /\ get_always ctx_amd64 (fun _ _ => 0) [102; 111; 111] = Panic 1 /\
   get_register ctx_amd64 (fun _ _ => 0) [102; 111; 111] VAll = Ret None.
 Proof. repeat split; vm_compute; reflexivity. Qed.
+
+(* F-C18b, exactly.  For the nine tables, ALL register files, ALL strings n and ALL validity sets s (any strings):
+   - under validity All the checked read never panics;
+   - get_register(n, Some(s)) reaches unreachable!() (Panic 1) exactly when n is a member of s that is not one of the
+     exact spellings set_register / get_register_always know; in every other case it returns (a value or None);
+     MinidumpContext::get_register behaves identically;
+   - CpuContext::valid_registers(Some(s)), drained, reaches unreachable!() exactly when s has a member that is not an
+     accepted spelling; otherwise it lists the members with their values;
+   - MinidumpContext::valid_registers never panics, whatever s holds (it walks REGISTERS and filters).
+   So the known-finding class is exactly: a validity set with a member the context does not know, observed through
+   get_register on THAT member or through the CpuContext set enumeration - nothing else. *)
+Theorem c18_unreachable_exactly : forall c, In c all_contexts -> forall rf n,
+  (exists o, get_register c rf n VAll = Ret o) /\
+  (forall s,
+     (get_register c rf n (VSome s) = Panic 1 <-> In n s /\ ~ In n (accepted c)) /\
+     (~ (In n s /\ ~ In n (accepted c)) -> exists o, get_register c rf n (VSome s) = Ret o) /\
+     md_get_register c rf n (VSome s) = get_register c rf n (VSome s) /\
+     (cpu_valid_registers c rf (VSome s) = Panic 1 <-> exists a, In a s /\ ~ In a (accepted c)) /\
+     ((forall a, In a s -> In a (accepted c)) -> cpu_valid_registers c rf (VSome s) = Ret (listing c rf s)) /\
+     (exists l, md_valid_registers c rf (VSome s) = Ret l)).
+Proof. intros c Hc. exact (unreachable_exactly c (all_facts c Hc)). Qed.
+Print Assumptions c18_unreachable_exactly.
+(* both sides of the characterisation occur: a known name under a set holding an unknown one reads normally *)
+Example c18_nonvacuous_unreachable :
+  let foo : name := [102; 111; 111] in let rf : regfile := fun _ _ => 6 in
+  In foo [foo; n_eip] /\ ~ In foo (accepted ctx_x86) /\
+  get_register ctx_x86 rf foo (VSome [foo; n_eip]) = Panic 1 /\
+  get_register ctx_x86 rf n_eip (VSome [foo; n_eip]) = Ret (Some 6) /\
+  get_register ctx_x86 rf n_esp (VSome [foo; n_eip]) = Ret None /\
+  get_register ctx_x86 rf [98; 97; 114] (VSome [foo; n_eip]) = Ret None /\
+  cpu_valid_registers ctx_x86 rf (VSome [foo; n_eip]) = Panic 1 /\
+  md_valid_registers ctx_x86 rf (VSome [foo; n_eip]) = Ret [(n_eip, 6)].
+Proof.
+  cbv zeta. split; [left; reflexivity|]. split; [vm_compute; intuition discriminate|].
+  repeat split; vm_compute; reflexivity.
+Qed.
 
 (* F-C18b (known finding): the class excluded by the hypothesis "s holds only known names" in
    c18_unknown_absent_no_panic / c18_enumerations.  [known_unknown_member c s] is that class; the
